@@ -224,14 +224,31 @@ func compactString(dst, src []byte, cursor int64, escape bool) ([]byte, int64, e
 		switch c {
 		case '\\':
 			cursor++
-			if src[cursor] == nul {
+			switch src[cursor] {
+			case '"', '\\', '/', 'b', 'f', 'n', 'r', 't':
+			case 'u':
+				// the NUL terminator is not a hex digit, so the look-ahead stays inside src
+				for i := 0; i < 4; i++ {
+					cursor++
+					h := src[cursor]
+					if !(('0' <= h && h <= '9') || ('a' <= h && h <= 'f') || ('A' <= h && h <= 'F')) {
+						return nil, 0, errors.ErrInvalidCharacter(h, "\\u hexadecimal character escape", cursor)
+					}
+				}
+			case nul:
 				return nil, 0, errors.ErrUnexpectedEndOfJSON("string", int64(len(src)))
+			default:
+				return nil, 0, errors.ErrInvalidCharacter(src[cursor], "string escape code", cursor)
 			}
 		case '"':
 			cursor++
 			return append(dst, src[start:cursor]...), cursor, nil
 		case nul:
 			return nil, 0, errors.ErrUnexpectedEndOfJSON("string", int64(len(src)))
+		default:
+			if c < 0x20 {
+				return nil, 0, errors.ErrInvalidCharacter(c, "string literal", cursor)
+			}
 		}
 	}
 }
